@@ -44,6 +44,7 @@ B(x) == IF x THEN "T" ELSE "F"
 EqV(v, w) == IF v.idx # w.idx THEN "F" ELSE IF ANY \in {v.val, w.val} THEN "any" ELSE B(v.val = w.val)
 LtV(v, w) == IF v.idx < w.idx THEN "T" ELSE IF v.idx > w.idx THEN "F"
              ELSE IF ANY \in {v.val, w.val} THEN "any" ELSE B(v.val < w.val)
+NotV(x) == IF x = "any" THEN "any" ELSE IF x = "T" THEN "F" ELSE "T"
 ObsVar(v) ==
   [idx   |-> v.idx,
    holds |-> [j \in 1..NAlt |-> B(v.idx = j - 1)],
@@ -52,7 +53,9 @@ ObsVar(v) ==
 Live(s) == Cardinality({n \in Names : s[n].idx = 2})
 ObsOf(s) == [v1 |-> ObsVar(s.v1), v2 |-> ObsVar(s.v2),
              visit2 |-> <<s.v1.idx, s.v1.val, s.v2.idx, s.v2.val>>,
-             eq |-> EqV(s.v1, s.v2), lt |-> LtV(s.v1, s.v2), gt |-> LtV(s.v2, s.v1),
+             eq |-> EqV(s.v1, s.v2), ne |-> NotV(EqV(s.v1, s.v2)),
+             lt |-> LtV(s.v1, s.v2), gt |-> LtV(s.v2, s.v1),
+             le |-> NotV(LtV(s.v2, s.v1)), ge |-> NotV(LtV(s.v1, s.v2)),
              live |-> Live(s)]
 
 Go == ~Hist \/ Len(hist) < Depth + 1
